@@ -234,6 +234,9 @@ def run(tier):
     if ok:
         am, ad = atoms_at(f, red["opt_missing"]), atoms_at(f, red["opt_default"])
         ok = HAS in am and ("==", "optarg", "0") in am and NOARG in ad and ("==", "os[opts[opt_found].olen]", "61") in ad
+        # exactly then: no further condition on the option string narrows the redirection (an empty value after '=' is still a value)
+        extra = [x for x in ad if x[1].startswith("os[") and x != ("==", "os[opts[opt_found].olen]", "61")]
+        ok = ok and not extra
         ok = ok and red["opt_missing"].line > src[want[2]].line if sorted(src) == sorted(want) else False
     rep.check(ok, "Q6-args", "no argument available: missing-argument index; '=value' given to an option without argument: default index", f.loc, "",
               function=f.name, construct="arg-redirect")
